@@ -256,18 +256,150 @@ def check_clamps(ctx, db):
     ctx.require('R-CLAMP divisor uses', n, 6)
 
 
+def sampler_model(db, name, args, tol, start, curve):
+    """one of the four adaptive samplers of Curve interpreted (sa/minieval, IEEE doubles; libm and the allocation of scratch control
+    points answered by the harness) on a curve object that already holds `start`. `curve(t)` is the exact curve (a Python function);
+    every parameter value the sampler evaluates is recorded. Returns (vertices appended, recorded parameters)."""
+    import math
+    from .. import minieval as M
+    f = db.fn('gdstk::Curve::' + name)
+    ts = []
+    ref = [None]
+
+    def arr(lst):
+        return M.Obj(items=M.Ptr(lst, 0) if lst else 0, count=len(lst), capacity=len(lst))
+
+    def extra(callee, args_, node):
+        c = callee or ''
+        short = c.split('::')[-1]
+        if short in ('acos', 'sqrt', 'fabs', 'cos', 'sin', 'pow') and len(c.split('::')) <= 2:
+            try:
+                return (getattr(math, short)(*[float(a_) for a_ in args_]),)
+            except (ValueError, OverflowError):
+                return (float('nan'),)
+        if short in ('eval_bezier3', 'eval_bezier2', 'eval_bezier', 'eval_line'):
+            ts.append(float(args_[0]))
+        if short == 'allocate':
+            lst = [M.Obj(x=0.0, y=0.0) for _ in range(int(args_[0]) // 16)]
+            ref[0].writable.add(id(lst))
+            return (M.Ptr(lst, 0),)
+        if short == 'free_allocation':
+            return (None,)
+        if short == 'memcpy':
+            d, s_, n_ = args_[0], args_[1], int(args_[2]) // 16
+            for k_ in range(n_):
+                d.arr[d.i + k_] = M.Obj(s_.arr[s_.i + k_])
+            return (d,)
+        return None
+    mi = M.Mini(db, hook=M.array_hook(ref, extra), budget=4000000, c_ints=True)
+    mi.obj_store = True
+    mi.ieee = True
+    ref[0] = mi
+    this = M.Obj(point_array=arr([M.Obj(x=float(start[0]), y=float(start[1]))]), tolerance=float(tol), last_ctrl=M.Obj(x=0.0, y=0.0))
+    env = {'this': this}
+    conv = []
+    for a_ in args:
+        if isinstance(a_, tuple):
+            conv.append(M.Obj(x=float(a_[0]), y=float(a_[1])))
+        elif isinstance(a_, list):
+            conv.append(arr([M.Obj(x=float(x), y=float(y)) for x, y in a_]))
+        elif callable(a_):
+            def fn_(u, data, a_=a_):
+                ts.append(float(u))
+                x, y = a_(float(u))
+                return M.Obj(x=x, y=y)
+            conv.append(fn_)
+        else:
+            conv.append(a_)
+    for p_, a_ in zip(f.params, conv):
+        env[p_['n']] = a_
+    try:
+        mi.run(f.body, env)
+    except M.Return:
+        pass
+    pa = this['point_array']
+    return [(o['x'], o['y']) for o in pa['items'].arr[pa['items'].i:pa['items'].i + pa['count']]][1:], ts
+
+
 def check_samplers(ctx, db):
+    """R-MODEL.sampler: append_cubic, append_quad, append_bezier and parametric interpreted on sample sections (an S-shaped and a
+    nearly straight cubic, a quadratic, a quartic Bezier, a parabola and a sine arc given as functions, absolute and relative) with tolerances 0.01
+    and 0.001. Each appended vertex is identified with the parameter value it was evaluated at (the sampler's own evaluations are
+    recorded). Required: no parameter beyond 1 is ever evaluated; the parameters of the vertices increase strictly; the last vertex is the end point
+    of the section exactly; every vertex is on the exact curve; between two consecutive vertices the curve stays within three
+    tolerances of the chord. Sample sections: the rule decides these and, through them, the end clamp and the step rule's
+    error test - not every control polygon (the NaN step of degenerate sections is outside)."""
+    import math
+    from ..minieval import OutOfBounds
+
+    def bez(ctrl):
+        def f_(t):
+            p = [tuple(map(float, c)) for c in ctrl]
+            while len(p) > 1:
+                p = [((1 - t) * a[0] + t * b[0], (1 - t) * a[1] + t * b[1]) for a, b in zip(p, p[1:])]
+            return p[0]
+        return f_
+    para = lambda u: (4.0 * u, 8.0 * u * (1.0 - u))
+    cases = [('append_cubic', 'S-shaped cubic', [(0, 0), (1, 2), (3, -2), (4, 0)], None), ('append_cubic', 'nearly straight cubic', [(0, 0), (1, 0.01), (3, -0.01), (4, 0)], None),
+             ('append_quad', 'quadratic', [(0, 0), (2, 3), (4, 0)], None), ('append_bezier', 'quartic Bezier', [(0, 0), (1, 2), (2, -1), (3, 2), (4, 0)], None),
+             ('parametric', 'parabola, absolute', None, 0), ('parametric', 'parabola, relative', None, 1), ('parametric', 'sine, absolute', None, 2)]
     n = 0
-    for name in ('append_cubic', 'append_quad', 'append_bezier', 'parametric'):
+    for name, label, ctrl, rel in cases:
         f = db.fn('gdstk::Curve::' + name)
         ctx.touch(f)
-        t = norm(clone.canon(f.body, f, ren=clone.Renamer(f, params_by_name=True)))
-        # `if (t + dt > 1) dt = 1 - t` precedes the evaluation of the next point inside the sampling loop
-        m = re.search(r'if \(\(\(v(\d+) \+ v(\d+)\) > 1(?:\.0)?\)\)\n\s+\(v\2 = \(1(?:\.0)? - v\1\)\)', t)
-        n += 1
-        ctx.check(m is not None, 'R-SHAPE', 'Curve::%s/end-clamp' % name, f.loc(), 'the parameter step is clamped so that the last evaluated vertex is at t = 1 (the requested end point)',
-                  'sampler does not clamp `t + dt > 1` to the end of the section')
-    ctx.require('R-SHAPE samplers', n, 4)
+        for tol in (0.01, 0.001):
+            n += 1
+            why = None
+            if ctrl is not None:
+                start, curve = ctrl[0], bez(ctrl)
+                args = [ctrl] if name == 'append_bezier' else list(ctrl)
+            else:
+                if rel == 2:
+                    sine = lambda u: (4.0 * u, math.sin(5.0 * u))
+                    start, curve, args = (0.0, 0.0), sine, [sine, 0, 0]
+                else:
+                    start = (0.0, 0.0) if not rel else (5.0, -3.0)
+                    curve = (lambda u: para(u)) if not rel else (lambda u: (5.0 + para(u)[0], -3.0 + para(u)[1]))
+                    args = [para, 0, rel]
+            try:
+                verts, ts = sampler_model(db, name, args, tol, start, curve)
+            except OutOfBounds as ex:
+                verts, ts, why = [], [], str(ex)
+            if why is None and ts and max(ts) > 1.0:
+                why = 'the section is evaluated at the parameter %r, beyond its end at 1 (the step is not clamped to the end of the section)' % max(ts)
+            if why is None:
+                cand = sorted(set(ts))
+                params = []
+                for v in verts:
+                    best = min(cand, key=lambda t_: math.hypot(curve(t_)[0] - v[0], curve(t_)[1] - v[1])) if cand else None
+                    if best is None or not (math.hypot(curve(best)[0] - v[0], curve(best)[1] - v[1]) <= 1e-9):
+                        why = 'vertex (%r, %r) is not a point of the curve at any parameter the sampler evaluated' % v
+                        break
+                    params.append(best)
+                end = curve(1.0)
+                if why is None and (not verts or verts[-1] != end):
+                    why = 'the last vertex is %s, the section ends at %s' % (verts[-1] if verts else None, end)
+                elif why is None and (any(b_ <= a_ for a_, b_ in zip(params, params[1:])) or params[-1] > 1.0 or params[0] <= 0.0):
+                    why = 'the parameters of the vertices do not increase strictly within (0, 1]: %s' % ['%.4f' % t_ for t_ in params[:8]]
+                elif why is None:
+                    prev_t, prev_v = 0.0, curve(0.0)
+                    for t_, v in zip(params, verts):
+                        for k_ in range(1, 8):
+                            q = curve(prev_t + (t_ - prev_t) * k_ / 8.0)
+                            dx, dy = v[0] - prev_v[0], v[1] - prev_v[1]
+                            l2 = dx * dx + dy * dy
+                            u_ = 0.0 if l2 == 0 else max(0.0, min(1.0, ((q[0] - prev_v[0]) * dx + (q[1] - prev_v[1]) * dy) / l2))
+                            d_ = math.hypot(q[0] - prev_v[0] - u_ * dx, q[1] - prev_v[1] - u_ * dy)
+                            if d_ > 3 * tol:
+                                why = 'between the parameters %.4f and %.4f the curve is %.4g from the polyline, tolerance %g' % (prev_t, t_, d_, tol)
+                                break
+                        if why:
+                            break
+                        prev_t, prev_v = t_, v
+            ctx.check(why is None, 'R-MODEL.sampler', 'Curve::%s/%s,tol=%g' % (name, label, tol), f.loc(),
+                      'vertices on the curve at strictly increasing parameters, the last one exactly the end point, the curve within three tolerances of every chord', why)
+    ctx.explored['valuations'] += n
+    ctx.require('R-MODEL.sampler sections interpreted', n, 14)
 
 
 def clamp_of(i):
@@ -1044,7 +1176,7 @@ def run(ctx):
 
 
 MANIFEST = dict(
-    text='Decides structural necessary conditions for curve sections: Curve::commands consumes exactly the operands its guard and advance constants state and agrees letter-by-letter with RobustPath::commands; every section method stores last_ctrl on every path (or delegates unconditionally), and on the relative path the stored control point is absolute (dependence closure reaches the current end point / absolute control polygon); every vertex count from arc_num_points that is used as a divisor is dominated by a clamp to >= 2 (or the n == 1 guard); the four adaptive samplers clamp the parameter step so the last vertex is the requested end point; one generic iteration of cubic, cubic_smooth, quadratic and quadratic_smooth, in relative and absolute mode, hands exactly the documented control points to the flattening routine and carries exactly the documented end/control point to the next section (polynomial identities); the flatness tests compare squared deviations only with the squared tolerance and fillet, ellipse, racetrack, cross and Curve::arc are dimensionally consistent throughout (powers-of-length analysis, ~190 resolved sites: no absolute threshold, no length compared with an area), angle reduction uses a floored modulo; the wrap-around indices of the Hobby solver are cyclic shifts in bounds, its rotated work arrays are filled completely with one common rotation and control points are stored back to the segment they were computed for (index expressions and memcpy extents evaluated exhaustively for count 2..7 and every rotation); an angle passed through elliptical_angle_transform is only multiplied by the semi-axes it was transformed for (forward dataflow over the CFG); two bounds of the same direction on one variable (fillet radius vs both adjacent edges) are applied independently, never else-chained. Tolerance and finiteness of sampled vertices are not decided. The list overloads of cubic / cubic_smooth / quadratic / quadratic_smooth are interpreted on two sections (control points handed to the flattener, reference point of the second section, remembered control point). Polygon::fillet is interpreted in IEEE doubles on 30 (thorough 90) small polygons - square, L, triangle, both orientations, rotated across the atan2 cut, one radius / per-vertex radii / a radius too large - against the exact filleted outline: every corner arc is tangent to both edges, of the (clamped) radius, the short way round and within twice the tolerance. These polygons are samples: the rule decides them and the three branches of the angle reduction they reach, not every polygon.',
+    text='Decides structural necessary conditions for curve sections: Curve::commands consumes exactly the operands its guard and advance constants state and agrees letter-by-letter with RobustPath::commands; every section method stores last_ctrl on every path (or delegates unconditionally), and on the relative path the stored control point is absolute (dependence closure reaches the current end point / absolute control polygon); every vertex count from arc_num_points that is used as a divisor is dominated by a clamp to >= 2 (or the n == 1 guard); the four adaptive samplers clamp the parameter step so the last vertex is the requested end point; one generic iteration of cubic, cubic_smooth, quadratic and quadratic_smooth, in relative and absolute mode, hands exactly the documented control points to the flattening routine and carries exactly the documented end/control point to the next section (polynomial identities); the flatness tests compare squared deviations only with the squared tolerance and fillet, ellipse, racetrack, cross and Curve::arc are dimensionally consistent throughout (powers-of-length analysis, ~190 resolved sites: no absolute threshold, no length compared with an area), angle reduction uses a floored modulo; the wrap-around indices of the Hobby solver are cyclic shifts in bounds, its rotated work arrays are filled completely with one common rotation and control points are stored back to the segment they were computed for (index expressions and memcpy extents evaluated exhaustively for count 2..7 and every rotation); an angle passed through elliptical_angle_transform is only multiplied by the semi-axes it was transformed for (forward dataflow over the CFG); two bounds of the same direction on one variable (fillet radius vs both adjacent edges) are applied independently, never else-chained. Tolerance and finiteness of sampled vertices are not decided. The list overloads of cubic / cubic_smooth / quadratic / quadratic_smooth are interpreted on two sections (control points handed to the flattener, reference point of the second section, remembered control point). Polygon::fillet is interpreted in IEEE doubles on 30 (thorough 90) small polygons - square, L, triangle, both orientations, rotated across the atan2 cut, one radius / per-vertex radii / a radius too large - against the exact filleted outline: every corner arc is tangent to both edges, of the (clamped) radius, the short way round and within twice the tolerance. These polygons are samples: the rule decides them and the three branches of the angle reduction they reach, not every polygon. The four adaptive samplers are interpreted on seven sample sections and two tolerances (R-MODEL.sampler): no parameter beyond 1, vertices on the exact curve in order, the last one exactly the end point, the curve within three tolerances of every chord (sampled sections).',
     note='Trusted: clang front end, gx, sa rules. `parametric` is exempt from the last_ctrl rule (stated reason in the checker).',
     technique='operand-consumption tables + must-write dataflow over the CFG + dependence closure + clamp dominance + clamp-chain discipline + interpretation of the section builders and of Polygon::fillet on sampled small polygons (sa/minieval, IEEE doubles; closest to a bounded test run by the checker\'s interpreter, see DESIGN 9.3)',
     design='§4 C15')
